@@ -20,6 +20,7 @@ func init() { register("C18", c18) }
 func c18(c *eng.Ctx, r *eng.Report) {
 	r.Level = "proof"
 	r.Explain = "strToBigInt is exact on every decimal string with at most 18 fractional and 78 integer digits, and strToBigInt(bigIntToStr(n,18),18) = n, by abstract interpretation of the function over {exact decimal, big.Float with relative error bound and direction}: the checker extracts prec, the rounding mode, the base and the pipeline ParseFloat → (*Float).Mul(target, target, base) → (*Float).Int from the SSA and discharges O1 prec >= bitlen(10^96)+3, O2 both roundings err away from zero (mode AwayFromZero inherited by Mul's receiver), O3 N_max·((1+2^(1-prec))^2-1) < 1 hence trunc(r) = N, O4 bigIntToStr/BigIntToStr are float-free string arithmetic emitting exactly `precision` fractional digits, O5 the ERC20/Rocket formatters are compositions of the two and every balance read/write in accountdb_tuntun.go passes them, O6 the value of a wrapped Ethereum transaction travels ConvertTx → TransferValue → decodeContractData as BigIntToStr(value) → StrToBigInt(string) with no intermediate rewriting and no floating-point type. " +
+		"O7 the converters consult no process-local state (no cache, package-variable store or shared object in their cone), so the result depends on the arguments only. " +
 		"Lemma (written out): for a decimal q = N/10^d with N < 10^96, r1 = round_away(q) satisfies |q| <= |r1| < |q|(1+e), e = 2^(1-prec); base = 10^d is exact (SetInt); r2 = round_away(r1·base) satisfies N <= |r2| < N(1+e)^2; O3 gives N(1+e)^2 - N < 1, so trunc(r2) = N. With a to-nearest mode r2 could fall below N and truncate to N-1, hence O2. " +
 		"Not decided: strings with more than 18 fractional digits, non-decimal syntaxes accepted by ParseFloat."
 	r.Trusted = []string{"math/big rounding semantics as documented (ParseFloat rounds once to prec with the given mode; z.Mul rounds to z's precision with z's mode; SetInt is exact when prec >= bit length; Int truncates toward zero)", "go/types constant evaluation", "go/ssa lowering", "the error-propagation lemma in coverage.explanation"}
@@ -27,6 +28,7 @@ func c18(c *eng.Ctx, r *eng.Report) {
 	c18Format(c, r)
 	c18Accessors(c, r)
 	c18EthValue(c, r)
+	c18Pure(c, r)
 }
 
 func c18Parse(c *eng.Ctx, r *eng.Report) {
@@ -304,5 +306,42 @@ func c18EthValue(c *eng.Ctx, r *eng.Report) {
 		}
 		hf, _ := eng.HasFloat(fn)
 		r.Check(ok && !hf, "O6", "decodeContractData:transfer-value", c.Pos(fn.Pos()), "TransferValue = StrToBigInt(data.TransferValue), unmodified, no float", "the contract executor no longer takes the transfer value as StrToBigInt(data.TransferValue) unchanged")
+	}
+}
+
+// c18Pure: conversion is a function of (string, decimal) / (integer,
+// precision) only — nothing in the cone of the converters remembers earlier
+// calls. A memo keyed by less than all arguments answers one decimal's parse
+// for another's.
+func c18Pure(c *eng.Ctx, r *eng.Report) {
+	const rule = "O7"
+	r.Min(rule, 1)
+	var entries []*ssa.Function
+	for _, n := range []string{"strToBigInt", "StrToBigInt", "bigIntToStr", "BigIntToStr", "FormatDecimalForERC20", "FormatDecimalForRocket"} {
+		if fn := c.Func("utility", n); fn != nil {
+			entries = append(entries, fn)
+		}
+	}
+	if !r.Anchor(len(entries) >= 4, rule, "utility converters (strToBigInt, StrToBigInt, bigIntToStr, BigIntToStr, FormatDecimalFor…)") {
+		return
+	}
+	in := func(fn *ssa.Function) bool { return strings.HasSuffix(eng.FuncPkgPath(fn), "/src/utility") }
+	cone := c.ConeOf(entries, in)
+	hits, n := 0, 0
+	for _, fn := range cone.Sorted() {
+		if !in(fn) || fn.Blocks == nil {
+			continue
+		}
+		n++
+		for _, h := range eng.ScanNondeterminism(fn) {
+			if h.Kind == "chan" || h.Kind == "go" || h.Kind == "select" {
+				continue
+			}
+			hits++
+			r.Fail(rule, h.Kind+":"+eng.FuncName(fn), c.Pos(h.Pos), h.Detail+" in the cone of the amount converters ("+cone.PathTo(fn)+"): the result of a conversion then depends on earlier conversions in this process, not only on its arguments — e.g. a parse cached under the string alone is returned for another decimal count")
+		}
+	}
+	if hits == 0 {
+		r.Pass(rule, "purity", "", fmt.Sprintf("no cache, package-variable store, shared object, map range, clock or randomness in the %d utility functions reachable from the converters", n))
 	}
 }
